@@ -60,13 +60,17 @@ func (vm *varyMatcher) VaryHeadersMatch(entries ResponseRefs, reqHdr http.Header
 		return a.ReceivedAt.Compare(b.ReceivedAt)
 	})
 
+	// RFC 9111 §4.1: when several stored responses match, use the most recent one
+	// (by Date), so that an older one that needs validation does not hide a
+	// newer fresh one; of equally recent ones the one stored last wins.
+	best := -1
 	for i, entry := range entries {
-		if vm.varyHeadersMatchOne(entry, reqHdr) {
-			return i, true // Found a match
+		if vm.varyHeadersMatchOne(entry, reqHdr) &&
+			(best < 0 || !entry.ReceivedAt.Before(entries[best].ReceivedAt)) {
+			best = i
 		}
 	}
-
-	return -1, false // No match found
+	return best, best >= 0
 }
 
 func (vm *varyMatcher) varyHeadersMatchOne(entry *ResponseRef, reqHeader http.Header) bool {
